@@ -453,6 +453,25 @@ class Interp:
                 yield None, s
                 return
             t = targets[0]
+            if isinstance(t, ast.Subscript) and isinstance(t.slice, ast.Slice) and t.slice.lower is None and t.slice.upper is not None \
+                    and t.slice.step is None and isinstance(t.value, (ast.Attribute, ast.Name)):
+                # del buf[:n]  ==  buf = buf[n:]  (dropping a prefix in place; no other name holds the buffer across the statement)
+                import copy as _copy
+                tgt = _copy.deepcopy(t.value)
+                for x_ in ast.walk(tgt):
+                    if hasattr(x_, "ctx"):
+                        x_.ctx = ast.Load()
+                tgt.ctx = ast.Store()
+                alt = ast.Assign(targets=[tgt], value=ast.Subscript(value=t.value, slice=ast.Slice(lower=t.slice.upper, upper=None, step=None), ctx=ast.Load()),
+                                 lineno=n.lineno)
+                ast.copy_location(alt, n)
+                ast.fix_missing_locations(alt)
+                for ex, s1 in self.stmt(alt, s, fx):
+                    if ex is not None:
+                        yield ex, s1
+                    else:
+                        yield from go(targets[1:], s1)
+                return
             if isinstance(t, ast.Subscript):
                 for r, base, s1 in self.ev(t.value, s, fx):
                     if r == "raise":
